@@ -831,7 +831,7 @@ def s_where(draw, cd, k, adj=False):
 
 
 def where_classes(cd, where):
-    c = [f"sites={len(where)}"]
+    c = []
     if len(where) >= 2:
         c.append("sorted" if list(where) == sorted(where) else "unsorted")
         c.append("adjacent" if all(adjacent(cd, a, b) for a, b in zip(where, where[1:])) else "distant")
@@ -1093,8 +1093,7 @@ def run_mps_auto_swap(case):
 # 11. MatrixProductState.gate_nonlocal  (gate -> sub-MPO -> compressed in)
 # ---------------------------------------------------------------------------
 
-# 'zipup-first', 'src*', 'fit' need max_bond / crash on sub-regions inside tn1d/compress.py (C09's business); a region of a
-# single site is only served by 'direct' (dm / zipup raise AttributeError there) -> one-site gates use direct / lazy only
+# 'zipup-first' crashes on sub-regions (finding C09-h), 'src*' / 'fit' require max_bond: not drawn here
 NONLOCAL_METHODS = ["direct", "direct", "lazy", "dm", "zipup"]
 
 
@@ -1118,8 +1117,6 @@ def run_mps_nonlocal(case):
     wd = [dims[w] for w in where]
     Gm, Garg = build_gate(case["gate"], wd)
     method = case["method"]
-    if k == 1 and method not in ("direct", "lazy"):
-        method = "direct"
     kw = {"method": method, "transpose": case["transpose"]}
     if method != "lazy":
         kw["cutoff"] = 0.0
@@ -1136,7 +1133,13 @@ def run_mps_nonlocal(case):
     before, floor = dense(psi, order), magnitude(psi)
     alltags, ntens, cls0 = sorted(psi.tags), psi.num_tensors, type(psi)
     info = dict(entry="MPS.gate_nonlocal", method=method, k=k, transpose=case["transpose"], default_site_tag=cd["site_tag_id"] == "I{}")
-    res = psi.gate_nonlocal_(Garg, tuple(where), **kw) if case["inplace"] else psi.gate_nonlocal(Garg, tuple(where), **kw)
+    try:
+        res = psi.gate_nonlocal_(Garg, tuple(where), **kw) if case["inplace"] else psi.gate_nonlocal(Garg, tuple(where), **kw)
+    except AttributeError as e:
+        if k == 1 and method in ("dm", "zipup"):
+            # `where` is documented as a sequence of sites, 'direct' serves one site: not a legitimate rejection
+            raise Violation("one-site-region", entry="MPS.gate_nonlocal", method=method, exc="AttributeError") from e
+        raise
     tol = TOL if method in ("direct", "lazy") else INV64
     e = verify(before, floor, res, order, dims, [(effective(Gm, case["transpose"]), where)], keep_tags=alltags, tol=tol, **info)
     check_class(cls0, res, **info)
@@ -1426,7 +1429,11 @@ def graph_adjacent(gd, i, j):
 def s_gwhere(draw, gd, k, adj=False):
     n = gd["n"]
     k = min(k, n)
-    if adj and k == 2 and gd["edges"]:
+    if adj == "far" and k == 2:
+        far = [[i, j] for i in range(n) for j in range(n) if i != j and not graph_adjacent(gd, i, j)]
+        if far:
+            return list(draw(st.sampled_from(far)))
+    elif adj and k == 2 and gd["edges"]:
         e = list(draw(st.sampled_from(gd["edges"])))
         return e if draw(st.booleans()) else e[::-1]
     return list(draw(st.permutations(list(range(n)))))[:k]
@@ -1637,7 +1644,7 @@ def s_ag_simple(draw, tier):
     gd = draw(s_graph(nmax=5 if op else 6, op=op))
     k = draw(st.sampled_from([1, 2, 2, 2, 2]))
     # the long-range fallback is written for vectors only (it needs site_ind): operators get nearest neighbours
-    where = draw(s_gwhere(gd, k, adj=True if op else draw(st.booleans())))
+    where = draw(s_gwhere(gd, k, adj=True if op else draw(st.sampled_from([True, "far", "far", False]))))
     return {"graph": gd, "op": op, "where": where, "gate": draw(s_gate(kinds=("gauss", "gauss", "unitary", "controlled", "product", "hermitian"))),
             "gseed": draw(A.seeds), "gauged": [draw(st.integers(0, 3)) != 0 for _ in gd["edges"]], "renorm": draw(st.booleans()),
             "transpose": draw(st.booleans()), "dagger": draw(st.booleans()), "smudge": draw(st.sampled_from(["default", 0.0])),
@@ -1678,7 +1685,9 @@ def run_ag_simple(case):
     if op and k == 2 and not adjacent_pair:
         raise Reject("long-range simple gating is implemented for vectors only")
     kw = dict(renorm=case["renorm"], transpose=case["transpose"], dagger=case["dagger"], cutoff=0.0, max_bond=None)
-    if case["smudge"] != "default":
+    if case["smudge"] != "default" and (k == 1 or adjacent_pair):
+        # smudge=0 is only sound where the gauges that get inverted are the supplied ones (all in [0.5, 1.5]); the long-range
+        # path inverts the *new* singular values, which with cutoff=0 contain exact zeros for rank-deficient gates / bonds
         kw["smudge"] = case["smudge"]
     if case["power"] != "default":
         kw["power"] = case["power"]
